@@ -9,7 +9,16 @@ PID = "C08"
 RULE = ("case = (byte order, width 1..64, position 0..511, set switches (bitNumbering in {None,0,1} x startLittle), "
         "get switches, probe bit k); thorough enumerates byte order x width x position x the 4x4 explicit switch "
         "values completely (1 048 576 set/get pairs) plus the None defaults; quick takes a seeded sample plus all "
-        "In half of the cases the byte order is assigned after construction. The signal has a history: it stood at the position whose internal number equals the number set next and was queried there in every notation. widths at byte boundaries. Non-trivial = distinct case in which the position is accepted and the signal "
+        "widths at byte boundaries. In half of the cases the byte order is assigned after construction. The signal has a "
+        "history: it stood at the position whose internal number equals the number set next and was queried there in "
+        "every notation. A further stream gives the judged set/get pair a generated history of calls of the public API "
+        "(key 'h' of the case): the very same set call made before (once or several times, also while the signal had "
+        "another width or byte order, also on a sibling signal of the other byte order), other set calls (accepted and "
+        "rejected ones), direct assignments of start_bit/size/is_little_endian in between, queries on the signal and on "
+        "the sibling before the set and between the set and the judged query; the call that is judged is the LAST set "
+        "and the LAST query of that history, sent to the driver in the shape of a single set/get pair, so a position "
+        "before bit 0 has to be refused every time and an accepted call has to store its position whatever was asked "
+        "before. Non-trivial = distinct case in which the position is accepted and the signal "
         "is wider than one bit or a renumbering takes place.")
 EXHAUSTIVE = {"thorough": True, "quick": False}
 PARTIAL = []
@@ -23,8 +32,84 @@ BN = [None, 0, 1]
 SL = [False, True]
 
 
-def mk(little, size, start, bns, sls, bng, slg, k):
-    return {"op": "sg", "c": [little, size, start, bns, sls, bng, slg, k]}
+def mk(little, size, start, bns, sls, bng, slg, k, h=None):
+    case = {"op": "sg", "c": [little, size, start, bns, sls, bng, slg, k]}
+    if h:
+        # history of calls before / around the judged pair; not sent to the driver (it judges the last set and the last query)
+        case["h"] = h
+    return case
+
+
+# ---------------------------------------------------------------------------------------------------------------------
+# histories.  h = {"sib": [little, size], "pre": [step...], "post": [step...]}
+#   target t: 0 = the signal under test, 1 = a sibling Signal object (other object, same process)
+#   ["same", t]            the very set_startbit call that is judged later (same numbers, same switches)
+#   ["set", t, p, bn, sl]  another set_startbit call (may be refused; the caller catches StartbitLowerZero)
+#   ["rej", t]             a call that has to be refused on a Motorola signal wider than one bit (lsbit at bit 0)
+#   ["get", t, bn, sl]     a query;  ["sameget", t] the query that is judged later
+#   ["pos", t, q]          start_bit assigned directly (what Frame.compress and some readers do)
+#   ["size", n] / ["order", b]   width / byte order of the signal under test assigned directly; both are put back to the
+#                          case's values before the judged call, so an earlier "same" was made for another width / order
+# "post" runs between the judged set and the judged query and contains nothing that may move the signal under test.
+# ---------------------------------------------------------------------------------------------------------------------
+SIZES = [1, 2, 7, 8, 9, 12, 16, 31, 32, 33, 63, 64]
+
+
+def rand_hist(rng, little, size, start):
+    sib = [rng.random() < (0.3 if not little else 0.7), size if rng.random() < 0.7 else rng.choice(SIZES)]
+    pre = []
+    for _ in range(rng.choice([1, 1, 2, 2, 3, 4])):
+        r = rng.random()
+        if r < 0.34:
+            pre.append(["same", 0])
+        elif r < 0.44:
+            pre.append(["same", 1])
+        elif r < 0.56:
+            pre.append(["set", rng.choice([0, 0, 1]), rng.choice([rng.randint(0, 70), rng.randint(0, 511)]), rng.choice(BN), rng.choice(SL)])
+        elif r < 0.62:
+            pre.append(["rej", rng.choice([0, 0, 1])])
+        elif r < 0.74:
+            pre.append(["pos", rng.choice([0, 0, 0, 1]), rng.choice([0, start, rng.randint(0, 511)])])
+        elif r < 0.82:
+            pre.append(["size", rng.choice(SIZES)])
+        elif r < 0.88:
+            pre.append(["order", rng.random() < 0.5])
+        elif r < 0.94:
+            pre.append(["get", rng.choice([0, 1]), rng.choice(BN), rng.choice(SL)])
+        else:
+            pre.append(["sameget", rng.choice([0, 1])])
+    if rng.random() < 0.5 and not any(st[0] == "same" for st in pre):
+        pre.insert(rng.randint(0, len(pre)), ["same", 0])
+    if rng.random() < 0.35:
+        # the same call once more right before the judged one, after whatever happened in between
+        pre.append(["same", 0])
+    post = []
+    for _ in range(rng.choice([0, 0, 1, 2, 3])):
+        r = rng.random()
+        if r < 0.2:
+            post.append(["same", rng.choice([0, 1])])
+        elif r < 0.35:
+            post.append(["rej", rng.choice([0, 1])])
+        elif r < 0.5:
+            post.append(["set", 1, rng.choice([start, rng.randint(0, 511)]), rng.choice(BN), rng.choice(SL)])
+        elif r < 0.6:
+            post.append(["pos", 1, rng.choice([start, rng.randint(0, 511)])])
+        elif r < 0.8:
+            post.append(["get", rng.choice([0, 1]), rng.choice(BN), rng.choice(SL)])
+        else:
+            post.append(["sameget", rng.choice([0, 1])])
+    return {"sib": sib, "pre": pre, "post": post}
+
+
+def hist_case(rng):
+    little = rng.random() < 0.3
+    size = rng.choice(SIZES + [rng.randint(1, 64)])
+    # half of the positions so near bit 0 that a Motorola lsbit position may leave no room for the bits in front of it
+    start = rng.choice([rng.randint(0, 511), rng.randint(0, 70), rng.randint(0, max(0, size - 1)), rng.randint(0, 15)])
+    bns = rng.choice(BN)
+    sls = rng.random() < 0.7
+    return mk(little, size, start, bns, sls, rng.choice(BN), rng.choice(SL), pick_k(rng, start, size),
+              rand_hist(rng, little, size, start))
 
 
 def pick_k(rng, start, size):
@@ -47,6 +132,15 @@ def gen(rng, tier, shard, nshards):
                     for bns, sls, bng, slg in ((None, False, None, False), (None, True, None, True),
                                                (None, False, 1, True), (0, True, None, False), (None, None, None, None)):
                         yield mk(little, size, start, bns, bool(sls), bng, bool(slg), pick_k(rng, start, size))
+        # every place once more, reached through a history of calls (sampled switches, generated history)
+        for start in range(shard, 512, nshards):
+            for little in (False, True):
+                for size in range(1, 65):
+                    bns, sls = rng.choice(BN), rng.random() < 0.7
+                    yield mk(little, size, start, bns, sls, rng.choice(BN), rng.choice(SL), pick_k(rng, start, size),
+                             rand_hist(rng, little, size, start))
+        for _ in range(40000 // nshards):
+            yield hist_case(rng)
     else:
         n = 60000 // nshards
         for _ in range(n):
@@ -61,13 +155,58 @@ def gen(rng, tier, shard, nshards):
                     for start in (0, 7, 8, 15, 56, 63, 64, 504, 511):
                         for bns, bng in itertools.product(BN, BN):
                             yield mk(little, size, start, bns, True, bng, False, pick_k(rng, start, size))
+        # histories of calls around the judged pair (own PRNG use after the streams above: their cases stay what they were)
+        for _ in range(16000 // nshards):
+            yield hist_case(rng)
 
 
 def neighbours(case, rng, shard, nshards):
     little, size, start, bns, sls, bng, slg, k = case["c"]
+    h = case.get("h")
     for _ in range(400 // nshards + 1):
-        yield mk(little, max(1, min(64, size + rng.randint(-2, 2))), max(0, min(511, start + rng.randint(-9, 9))),
-                 rng.choice(BN), rng.choice(SL), rng.choice(BN), rng.choice(SL), pick_k(rng, start, size))
+        size2 = max(1, min(64, size + rng.randint(-2, 2)))
+        start2 = max(0, min(511, start + rng.randint(-9, 9)))
+        # a disagreement may stem from what happened before: keep the history, drop it, or draw another one
+        r = rng.random()
+        h2 = h if r < 0.4 else (None if r < 0.6 else rand_hist(rng, little, size2, start2))
+        yield mk(little, size2, start2,
+                 rng.choice(BN), rng.choice(SL), rng.choice(BN), rng.choice(SL), pick_k(rng, start, size), h2)
+
+
+def _try_set(sig, start, bn, sl):
+    """a caller that catches the declared error, as the importers do"""
+    try:
+        sig.set_startbit(start, bitNumbering=bn, startLittle=sl)
+        return True
+    except cm.StartbitLowerZero:
+        return False
+
+
+def _run_steps(steps, sigs, c):
+    little, size, start, bns, sls, bng, slg, k = c
+    for st in steps:
+        kind = st[0]
+        if kind == "same":
+            _try_set(sigs[st[1]], start, bns, sls)
+        elif kind == "set":
+            _try_set(sigs[st[1]], st[2], st[3], st[4])
+        elif kind == "rej":
+            # lsbit at bit 0 of a Motorola signal wider than one bit: no room for the bits in front of it.  On any other signal
+            # the call would be a legitimate move to bit 0, which is not what this step is for: left out there
+            if sigs[st[1]].is_little_endian is False and sigs[st[1]].size >= 2:
+                _try_set(sigs[st[1]], 0, False, True)
+        elif kind == "get":
+            sigs[st[1]].get_startbit(bit_numbering=st[2], start_little=st[3])
+        elif kind == "sameget":
+            sigs[st[1]].get_startbit(bit_numbering=bng, start_little=slg)
+        elif kind == "pos":
+            sigs[st[1]].start_bit = st[2]
+        elif kind == "size":
+            sigs[0].size = st[1]
+        elif kind == "order":
+            sigs[0].is_little_endian = st[1]
+        else:
+            raise ValueError("unknown history step %r" % (st,))
 
 
 def observe(case):
@@ -85,12 +224,25 @@ def observe(case):
     for bn0 in BN:
         for sl0 in SL:
             sig.get_startbit(bit_numbering=bn0, start_little=sl0)
+    h = case.get("h")
+    sigs = None
+    if h:
+        # the judged pair is the last set and the last query of a longer history of calls (on this object and on a sibling)
+        sib = cm.Signal("t", size=h["sib"][1], is_little_endian=h["sib"][0], is_signed=False)
+        sigs = [sig, sib]
+        _run_steps(h["pre"], sigs, case["c"])
+        sig.size = size
+        sig.is_little_endian = little
+        prior = sig.start_bit
     try:
         sig.set_startbit(start, bitNumbering=bns, startLittle=sls)
     except cm.StartbitLowerZero:
         # nothing may have been stored
         return {"set": None, "get": None, "dec": None, "stored": 0 if sig.start_bit == prior else "changed to %d" % sig.start_bit}
     internal = sig.start_bit
+    if h:
+        # nothing in here may move the signal under test: queries, the same call again, refused calls, work on the sibling
+        _run_steps(h["post"], sigs, case["c"])
     got = sig.get_startbit(bit_numbering=bng, start_little=slg)
     dec = None
     if internal >= 0 and internal + size <= FRAME_BYTES * 8:
@@ -113,6 +265,18 @@ def features(case, impl):
     yield "rejected" if impl.get("set") is None else "accepted"
     if impl.get("dec"):
         yield "probe-bit-inside-signal"
+    h = case.get("h")
+    if h:
+        yield "history"
+        sames = sum(1 for st in h["pre"] if st == ["same", 0])
+        if sames:
+            yield "history: same call made before" + (" (refused every time)" if impl.get("set") is None else "")
+        if sames > 1:
+            yield "history: same call made before more than once"
+        for st in h["pre"]:
+            yield "history: pre " + st[0] + (" on sibling" if st[0] not in ("size", "order") and st[1] == 1 else "")
+        for st in h["post"]:
+            yield "history: post " + st[0] + (" on sibling" if st[1] == 1 else "")
 
 
 def nontrivial(case, impl):
@@ -122,15 +286,50 @@ def nontrivial(case, impl):
 
 def shrink_candidates(case):
     little, size, start, bns, sls, bng, slg, k = case["c"]
+    h = case.get("h")
+    if h:
+        yield mk(little, size, start, bns, sls, bng, slg, k)
+        for part in ("post", "pre"):
+            for j in range(len(h[part])):
+                h2 = dict(h)
+                h2[part] = h[part][:j] + h[part][j + 1:]
+                yield mk(little, size, start, bns, sls, bng, slg, k, h2 if h2["pre"] or h2["post"] else None)
     if size > 1:
-        yield mk(little, size - 1, start, bns, sls, bng, slg, k)
+        yield mk(little, size - 1, start, bns, sls, bng, slg, k, h)
     if start > 0:
-        yield mk(little, size, start - 1, bns, sls, bng, slg, k)
-        yield mk(little, size, start // 2, bns, sls, bng, slg, k)
+        yield mk(little, size, start - 1, bns, sls, bng, slg, k, h)
+        yield mk(little, size, start // 2, bns, sls, bng, slg, k, h)
 
 
 def recipe(case):
     little, size, start, bns, sls, bng, slg, k = case["c"]
-    return ("import canmatrix.canmatrix as cm; s=cm.Signal('s',size=%d,is_little_endian=%s,is_signed=False); "
-            "s.set_startbit(%d,bitNumbering=%r,startLittle=%r); print(s.start_bit, s.get_startbit(bit_numbering=%r,start_little=%r))"
-            % (size, little, start, bns, sls, bng, slg))
+    h = case.get("h")
+    if not h:
+        return ("import canmatrix.canmatrix as cm; s=cm.Signal('s',size=%d,is_little_endian=%s,is_signed=False); "
+                "s.set_startbit(%d,bitNumbering=%r,startLittle=%r); print(s.start_bit, s.get_startbit(bit_numbering=%r,start_little=%r))"
+                % (size, little, start, bns, sls, bng, slg))
+    names = ["s", "t"]
+
+    def lines(steps):
+        for st in steps:
+            if st[0] in ("same", "set", "rej"):
+                a = (start, bns, sls) if st[0] == "same" else (0, False, True) if st[0] == "rej" else tuple(st[2:5])
+                yield "try: %s.set_startbit(%d,bitNumbering=%r,startLittle=%r)\nexcept cm.StartbitLowerZero: print('refused')" % ((names[st[1]],) + a)
+            elif st[0] in ("get", "sameget"):
+                a = (bng, slg) if st[0] == "sameget" else tuple(st[2:4])
+                yield "%s.get_startbit(bit_numbering=%r,start_little=%r)" % ((names[st[1]],) + a)
+            elif st[0] == "pos":
+                yield "%s.start_bit=%d" % (names[st[1]], st[2])
+            elif st[0] == "size":
+                yield "s.size=%d" % st[1]
+            elif st[0] == "order":
+                yield "s.is_little_endian=%r" % st[1]
+    out = ["import canmatrix.canmatrix as cm",
+           "s=cm.Signal('s',size=%d,is_little_endian=%s,is_signed=False)" % (size, little),
+           "t=cm.Signal('t',size=%d,is_little_endian=%s,is_signed=False)" % (h["sib"][1], h["sib"][0])]
+    out += list(lines(h["pre"]))
+    out += ["s.size=%d; s.is_little_endian=%s" % (size, little),
+            "s.set_startbit(%d,bitNumbering=%r,startLittle=%r)  # judged: refused with StartbitLowerZero or stored" % (start, bns, sls)]
+    out += list(lines(h["post"]))
+    out += ["print(s.start_bit, s.get_startbit(bit_numbering=%r,start_little=%r))" % (bng, slg)]
+    return "\n".join(out)
